@@ -475,7 +475,7 @@ pub fn extract_field_option(tag: &str) -> Option<char> {
 /// Parse field with optional suffix (e.g., "20C" -> ("20", Some('C')))
 pub fn parse_field_with_suffix(input: &str) -> (String, Option<char>) {
     if let Some(last_char) = input.chars().last()
-        && last_char.is_alphabetic()
+        && last_char.is_ascii_alphabetic()
         && input[..input.len() - 1].chars().all(|c| c.is_numeric())
     {
         return (input[..input.len() - 1].to_string(), Some(last_char));
